@@ -65,6 +65,20 @@ def sf(x, tag):
 def quick(x, tag):
     return x
 
+# ---- async function with a precondition only whose body starts the other calls of the configuration: the tasks made there
+#      copy the context of this call while it is in flight
+@icontract.require(lambda x: x > 0, error=lambda x, tag: Rejected("pre:" + tag))
+async def afan(x, tag):
+    GATES.spawn(tag)
+    await GATES.agate(tag, "body")
+    return x
+
+@icontract.require(lambda x: x > 0, error=lambda x, tag: Rejected("pre:" + tag))
+def sfan(x, tag):
+    GATES.spawn(tag)
+    GATES.tgate(tag, "body")
+    return x
+
 # ---- objects with invariants
 @icontract.invariant(lambda self: self.ok, error=lambda self: Rejected("inv:" + self.name))
 class K(icontract.DBC):
@@ -108,6 +122,17 @@ class K(icontract.DBC):
         await GATES.agate(tag, "body")
         return x
 
+    async def aspawn(self, tag):
+        """Starts the other calls of the configuration from inside its body (a worker started by a method)."""
+        GATES.spawn(tag)
+        await GATES.agate(tag, "body")
+        return tag
+
+    def tspawn(self, tag):
+        GATES.spawn(tag)
+        GATES.tgate(tag, "body")
+        return tag
+
     def tslow(self, tag):
         self.ok = False
         GATES.tgate(tag, "body")
@@ -129,6 +154,12 @@ class Gates:
         self.log = []  # type: List[Tuple[str, str]]
         self.lock = threading.Lock()
         self.cv = threading.Condition(self.lock)
+        self.spawner = None  # type: Any
+
+    def spawn(self, tag: str) -> None:
+        """Called from inside the body of a contracted call: lets the harness start further calls from there."""
+        if self.spawner is not None:
+            self.spawner(tag)
 
     # asyncio
     async def agate(self, tag: str, where: str) -> None:
@@ -199,6 +230,19 @@ def async_configs() -> List[Dict[str, Any]]:
         {"name": "same-object-both-break-invariant", "calls": [("a", "o1.abreak", (), "inv:o1"), ("b", "o1.abreak", (), "inv:o1")]},
         {"name": "same-method-two-objects-late-invalid", "calls": [("a", "o1.aarg", (1,), "ok"), ("b", "o2.aarg", (-1,), "pre:b")]},
         {"name": "same-object-same-method-late-invalid", "calls": [("a", "o1.aarg", (1,), "ok"), ("b", "o1.aarg", (-1,), "pre:b")]},
+        # calls started from INSIDE the body of a call in flight (they inherit a copy of its context taken at that moment)
+        {"name": "spawned-inside-method-body-breaks-invariant", "spawned_by": "a",
+         "calls": [("a", "o1.aspawn", (), "ok|inv:o1"), ("b", "o1.abreak", (), "inv:o1")]},
+        {"name": "spawned-inside-method-body-two-workers", "spawned_by": "a",
+         "calls": [("a", "o1.aspawn", (), "ok|inv:o1"), ("b", "o1.ahold", (), "ok|inv:o1"), ("c", "o1.abreak", (), "inv:o1")]},
+        {"name": "spawned-inside-method-body-other-object", "spawned_by": "a",
+         "calls": [("a", "o1.aspawn", (), "ok"), ("b", "o2.abreak", (), "inv:o2")]},
+        {"name": "spawned-inside-method-body-to-thread", "spawned_by": "a",
+         "calls": [("a", "o1.aspawn", (), "ok|inv:o1"), ("b", "thread:o1.tbreak", (), "inv:o1")]},
+        {"name": "spawned-inside-function-body-late-invalid", "spawned_by": "a",
+         "calls": [("a", "afan", (1,), "ok"), ("b", "afan", (-1,), "pre:b")]},
+        {"name": "spawned-inside-function-body-fan-out", "spawned_by": "a",
+         "calls": [("a", "afan", (1,), "ok"), ("b", "afan", (-1,), "pre:b"), ("c", "af", (-2,), "pre:c"), ("d", "afan", (2,), "ok")]},
     ]
 
 
@@ -222,7 +266,10 @@ def run_async_schedule(mod: Any, gates: Gates, config: Dict[str, Any], mode: str
 
     async def one(tag: str, target: str, args: tuple) -> None:
         try:
-            if "." in target:
+            if target.startswith("thread:"):
+                oname, mname = target[len("thread:"):].split(".")
+                res = await asyncio.to_thread(getattr(objs[oname], mname), *args, tag)
+            elif "." in target:
                 oname, mname = target.split(".")
                 res = await getattr(objs[oname], mname)(*args, tag)
             else:
@@ -273,6 +320,28 @@ def run_async_schedule(mod: Any, gates: Gates, config: Dict[str, Any], mode: str
                 fut.set_result(None)
 
         director_task = asyncio.ensure_future(director())
+        spawned_by = config.get("spawned_by")
+        if spawned_by is not None:
+            first = [c for c in calls if c[0] == spawned_by]
+            rest = [c for c in calls if c[0] != spawned_by]
+            tasks = []
+            done_once = [False]
+
+            def spawner(tag: str) -> None:
+                if tag == spawned_by and not done_once[0]:
+                    done_once[0] = True
+                    for t, target, args, _exp in rest:
+                        tasks.append(asyncio.ensure_future(one(t, target, args)))
+
+            gates.spawner = spawner
+            try:
+                tasks.extend(asyncio.ensure_future(one(t, target, args)) for t, target, args, _exp in first)
+                await director_task
+                await asyncio.wait(tasks)
+            finally:
+                gates.spawner = None
+            gates.mode = "free"
+            return
         if mode == "gather-after":
             await asyncio.gather(*[one(tag, target, args) for tag, target, args, _exp in calls])
         elif mode == "taskgroup-after":
@@ -299,6 +368,8 @@ def explore_async(w, mod: Any, gates: Gates, cap: int) -> None:
     for config in async_configs():
         for mode in ("tasks-before-parent-ran-contracts", "tasks-after-parent-ran-contracts", "gather-after", "taskgroup-after",
                      "objects-constructed-in-parent-first"):
+            if config.get("spawned_by") and mode in ("gather-after", "taskgroup-after"):
+                continue  # the spawning call itself is a plain task; how the *parent* started it makes no difference
             explorer = Explorer(cap)
             n = 0
             while not explorer.done:
@@ -315,7 +386,7 @@ def explore_async(w, mod: Any, gates: Gates, cap: int) -> None:
                         w.count("calls_overlapping_with_another")
                     got = results.get(tag, "<no result>")
                     if got not in exp.split("|"):
-                        w.violation(classify(mode), "configuration {} in mode {} under schedule {}: call {} gave {!r}, sequentially it gives {!r}".format(
+                        w.violation(classify(mode, config), "configuration {} in mode {} under schedule {}: call {} gave {!r}, sequentially it gives {!r}".format(
                             config["name"], mode, seq, tag, got, exp),
                             {"engine": "asyncio", "config": config["name"], "mode": mode, "prefix": [c for c, _n in explorer.trace]},
                             {"results": results, "schedule": seq})
@@ -324,7 +395,12 @@ def explore_async(w, mod: Any, gates: Gates, cap: int) -> None:
                 w.sample({"config": config["name"], "mode": mode, "schedules": n, "last_schedule": seq, "results": results})
 
 
-def classify(mode: str) -> str:
+def classify(mode: str, config: Optional[Dict[str, Any]] = None) -> str:
+    if config is not None and config.get("spawned_by"):
+        # mechanism: the in-progress marks of a call in flight are inherited by the tasks / threads started from its body
+        if "function" in config["name"]:
+            return "C12/checks-disabled-in-flow-started-during-a-function-call"
+        return "C12/checks-disabled-in-flow-started-during-a-call"
     if "after" in mode or mode in ("to_thread", "copied-after", "objects-constructed-in-parent-first", "context-copied-after-ctor"):
         return "C12/in-progress-set-aliased-across-context-copies"
     return "C12/verdict-depends-on-concurrent-call"
@@ -341,6 +417,12 @@ def thread_configs() -> List[Dict[str, Any]]:
         {"name": "same-object-invariant-broken-meanwhile", "calls": [("a", "o1.tslow", (), "ok"), ("b", "o1.tcheck", (), "inv:o1|ok")]},
         {"name": "different-objects", "calls": [("a", "o1.tslow", (), "ok"), ("b", "o2.tcheck", (), "ok")]},
         {"name": "same-object-late-call-breaks-invariant", "calls": [("a", "o1.thold", (), "ok|inv:o1"), ("b", "o1.tbreak", (), "inv:o1")]},
+        {"name": "spawned-inside-method-body-breaks-invariant", "spawned_by": "a",
+         "calls": [("a", "o1.tspawn", (), "ok|inv:o1"), ("b", "o1.tbreak", (), "inv:o1")]},
+        {"name": "spawned-inside-method-body-other-object", "spawned_by": "a",
+         "calls": [("a", "o1.tspawn", (), "ok"), ("b", "o2.tbreak", (), "inv:o2")]},
+        {"name": "spawned-inside-function-body-late-invalid", "spawned_by": "a",
+         "calls": [("a", "sfan", (1,), "ok"), ("b", "sfan", (-1,), "pre:b"), ("c", "sf", (-1,), "pre:c")]},
     ]
 
 
@@ -386,7 +468,28 @@ def run_thread_schedule(mod: Any, gates: Gates, config: Dict[str, Any], mode: st
         gates.mode = "threads"
         gates.parked = {}
         threads = []
+        spawned_by = config.get("spawned_by")
+        done_once = [False]
+
+        def spawner(tag: str) -> None:
+            # runs inside the body of the call `spawned_by`: the new threads run in a copy of ITS context (asyncio.to_thread style)
+            if tag != spawned_by or done_once[0]:
+                return
+            done_once[0] = True
+            for t, target, args, _exp in config["calls"]:
+                if t == spawned_by:
+                    continue
+                if mode == "fresh-thread":
+                    th2 = threading.Thread(target=one, args=(t, target, args), daemon=True)
+                else:
+                    th2 = threading.Thread(target=contextvars.copy_context().run, args=(one, t, target, args), daemon=True)
+                threads.append(th2)
+                th2.start()
+
+        gates.spawner = spawner if spawned_by else None
         for tag, target, args, _exp in config["calls"]:
+            if spawned_by and tag != spawned_by:
+                continue
             if mode == "fresh-thread":
                 th = threading.Thread(target=one, args=(tag, target, args), daemon=True)
             elif mode == "context-copied-before":
@@ -395,7 +498,7 @@ def run_thread_schedule(mod: Any, gates: Gates, config: Dict[str, Any], mode: st
                 # what asyncio.to_thread / run_in_executor with a copied context do
                 th = threading.Thread(target=ctx_after.copy().run, args=(one, tag, target, args), daemon=True)
             threads.append(th)
-        for th in threads:
+        for th in list(threads):  # (the spawner appends the threads it starts itself)
             th.start()
         n_calls = len(config["calls"])
         deadline = time.time() + 20
@@ -422,9 +525,10 @@ def run_thread_schedule(mod: Any, gates: Gates, config: Dict[str, Any], mode: st
             with gates.cv:
                 while tag not in gates.parked and tag not in finished and time.time() < deadline:
                     gates.cv.wait(timeout=0.05)
-        for th in threads:
+        for th in list(threads):
             th.join(timeout=5)
         gates.mode = "free"
+        gates.spawner = None
 
     explorer.start_run()
     runner_thread = threading.Thread(target=contextvars.Context().run, args=(parent,), daemon=True)
@@ -453,7 +557,7 @@ def explore_threads(w, mod: Any, gates: Gates, cap: int) -> None:
                     if got == "<no result>":
                         w.mark_inconclusive("thread schedule {} of {} in mode {} did not finish (watchdog)".format(seq, config["name"], mode))
                     elif got not in exp.split("|"):
-                        w.violation(classify(mode if mode != "context-copied-after" else "copied-after"),
+                        w.violation(classify(mode if mode != "context-copied-after" else "copied-after", config),
                                     "threads: configuration {} in mode {} under schedule {}: call {} gave {!r}, sequentially it gives {!r}".format(
                                         config["name"], mode, seq, tag, got, exp),
                                     {"engine": "threads", "config": config["name"], "mode": mode, "prefix": [c for c, _n in explorer.trace]},
@@ -604,7 +708,7 @@ def replay(case, w) -> None:
             results, seq, _ = run_async_schedule(mod, gates, config, case["mode"], ex)
             for tag, _t, _a, exp in config["calls"]:
                 if results.get(tag) not in exp.split("|"):
-                    w.violation(classify(case["mode"]), "replayed schedule {}: call {} gave {!r} instead of {!r}".format(seq, tag, results.get(tag), exp), case)
+                    w.violation(classify(case["mode"], config), "replayed schedule {}: call {} gave {!r} instead of {!r}".format(seq, tag, results.get(tag), exp), case)
         elif case.get("engine") == "threads":
             config = [c for c in thread_configs() if c["name"] == case["config"]][0]
             ex = Explorer(1)
@@ -612,7 +716,7 @@ def replay(case, w) -> None:
             results, seq, _ = run_thread_schedule(mod, gates, config, case["mode"], ex)
             for tag, _t, _a, exp in config["calls"]:
                 if results.get(tag) not in exp.split("|"):
-                    w.violation(classify(case["mode"]), "replayed schedule {}: call {} gave {!r} instead of {!r}".format(seq, tag, results.get(tag), exp), case)
+                    w.violation(classify(case["mode"], config), "replayed schedule {}: call {} gave {!r} instead of {!r}".format(seq, tag, results.get(tag), exp), case)
         else:
             stress(w, mod, gates, rounds=6, n_threads=8)
     finally:
